@@ -72,13 +72,13 @@ class _Strict(HTMLParser):
         inner = self.stack[-1][1] if self.stack else "-"
         return (region, inner)
 
-    def _add(self, kind: str, name: str, attrs: tuple = (), raw: bool = False) -> None:
+    def _add(self, kind: str, name: str, attrs: tuple = (), raw: bool = False, ctx: typing.Optional[tuple] = None) -> None:
         ev = self.page.events
         if kind == "T" and ev and ev[-1].kind == "T" and ev[-1].raw == raw:
             last = ev[-1]
             ev[-1] = last._replace(name=last.name + name)
             return
-        ev.append(Ev(kind, name, attrs, raw, self._ctx(), self.getpos()))
+        ev.append(Ev(kind, name, attrs, raw, ctx or self._ctx(), self.getpos()))
 
     def _err(self, cls: str, detail: str) -> None:
         line, col = self.getpos()
@@ -132,8 +132,9 @@ class _Strict(HTMLParser):
             self._err("misnested", f"</{tag}> closes over unclosed {open_tags[open_tags.index(tag) + 1:][-4:]}")
             while self.stack[-1][0] != tag:
                 self.stack.pop()
+        ctx = self._ctx()  # the element being closed is the context of its own end tag
         self.stack.pop()
-        self._add("E", tag)
+        self._add("E", tag, ctx=ctx)
 
     def handle_data(self, data: str) -> None:
         raw = bool(self.stack) and self.stack[-1][0] in RAW_TEXT
@@ -169,6 +170,7 @@ class Divergence(typing.NamedTuple):
     effect: str  # 'markup' (tags/attributes/comments differ) or 'text' (character data differs)
     ctx: typing.Tuple[str, str]
     detail: str
+    index: int = -1  # index of the base event at which the pages diverge
 
 
 def _show(e: typing.Optional[Ev]) -> str:
@@ -181,54 +183,59 @@ def _show(e: typing.Optional[Ev]) -> str:
     return f"{e.kind}:{e.name[:60]!r}"
 
 
-def compare(base: Page, real: Page, word: typing.Optional[str], doc: typing.Optional[str]) -> typing.List[Divergence]:
+def compare(
+    base: Page, real: Page, subs: typing.Sequence[typing.Tuple[str, str]], with_text: bool = True
+) -> typing.List[Divergence]:
     """
-    `base` is the page generated with the plain `word` where `real` has `doc`.  The DSDL text is inert iff both pages
-    have the same sequence of tags, attributes, comments and declarations (attribute values and comments with
-    word -> doc substituted) and every text node of `real` equals the base text node with word -> doc, modulo white
-    space.  With word=None only the markup skeleton is compared (text may differ anywhere).
+    `base` is the page generated with plain words where `real` has the text under test; `subs` lists the
+    (base string -> real string) substitutions that turn the base input into the real input.  The DSDL text is inert
+    iff both pages have the same sequence of tags, attributes, comments and declarations (attribute values and
+    comments with the substitutions applied) and every text node of `real` equals the substituted base text node,
+    modulo white space.  With with_text=False only the markup skeleton is compared (text may differ anywhere).
     Returns at most one 'markup' divergence (comparison cannot continue after it) and all 'text' divergences before it.
     """
     out: typing.List[Divergence] = []
 
     def sub(s: typing.Optional[str]) -> typing.Optional[str]:
-        if s is None or word is None or doc is None:
+        if s is None:
             return s
-        return s.replace(word, doc)
+        for old, new in subs:
+            s = s.replace(old, new)
+        return s
 
-    b = base.events if word is not None else [e for e in base.events if e.kind != "T"]
-    r = real.events if word is not None else [e for e in real.events if e.kind != "T"]
+    b = base.events if with_text else [e for e in base.events if e.kind != "T"]
+    r = real.events if with_text else [e for e in real.events if e.kind != "T"]
     n = max(len(b), len(r))
     for i in range(n):
         eb = b[i] if i < len(b) else None
         er = r[i] if i < len(r) else None
         ctx = eb.ctx if eb is not None else (b[-1].ctx if b else ("-", "-"))
         if eb is None or er is None or eb.kind != er.kind:
-            out.append(Divergence("markup", ctx, f"expected {_show(eb)}, page has {_show(er)}"))
+            out.append(Divergence("markup", ctx, f"expected {_show(eb)}, page has {_show(er)}", i))
             return out
         if eb.kind == "S":
             want = tuple((k, sub(v)) for k, v in eb.attrs)
             if eb.name != er.name or want != er.attrs:
-                out.append(Divergence("markup", ctx, f"expected {_show(eb)}, page has {_show(er)}"))
+                out.append(Divergence("markup", ctx, f"expected {_show(eb)}, page has {_show(er)}", i))
                 return out
         elif eb.kind == "E":
             if eb.name != er.name:
-                out.append(Divergence("markup", ctx, f"expected {_show(eb)}, page has {_show(er)}"))
+                out.append(Divergence("markup", ctx, f"expected {_show(eb)}, page has {_show(er)}", i))
                 return out
         elif eb.kind == "T":
             if eb.raw != er.raw:
-                out.append(Divergence("markup", ctx, "text moved into/out of a script/style element"))
+                out.append(Divergence("markup", ctx, "text moved into/out of a script/style element", i))
                 return out
             if norm_ws(sub(eb.name) or "") != norm_ws(er.name):
                 if eb.raw:
-                    out.append(Divergence("markup", ctx, "content of a script/style element depends on the DSDL text"))
+                    out.append(Divergence("markup", ctx, "content of a script/style element depends on the DSDL text", i))
                     return out
                 out.append(
-                    Divergence("text", ctx, f"expected text {norm_ws(sub(eb.name) or '')[:80]!r}, page has {norm_ws(er.name)[:80]!r}")
+                    Divergence("text", ctx, f"expected text {norm_ws(sub(eb.name) or '')[:80]!r}, page has {norm_ws(er.name)[:80]!r}", i)
                 )
         else:
             if norm_ws(sub(eb.name) or "") != norm_ws(er.name):
-                out.append(Divergence("markup", ctx, f"expected {_show(eb)}, page has {_show(er)}"))
+                out.append(Divergence("markup", ctx, f"expected {_show(eb)}, page has {_show(er)}", i))
                 return out
     return out
 
